@@ -84,7 +84,7 @@ Proof. intros H. apply (fund_pool_inv 0%N) in H. destruct H as (b & xs & -> & _)
 
 Lemma new_auction_wf id ty u up price sd samt pd vs start end_ st rem minp maxr rate :
   0 < price -> 0 < samt -> sd <> pd -> scheds_chk vs end_ -> (length vs <= MaxNumVestingSchedules)%nat ->
-  (maxr <= 30)%N ->
+  (maxr <= MaxExtendedRound)%N ->
   (ty = Batch -> 0 < minp /\ 0 < rate /\ rem = 0) ->
   (ty = FixedPrice -> minp = 0 /\ rate = 0 /\ maxr = 0%N /\ rem = samt) ->
   auction_wf (new_auction id ty u up price sd samt pd vs start end_ st rem minp maxr rate).
